@@ -87,6 +87,13 @@ class Builder:
         self.observers = [x for x in self.observers if x != o]
         self.add_call(("-", o))
 
+    def remove_from_callback(self, a, o):
+        """observer a (registered once, before o) unregisters o from inside its next callback; to be followed at once by
+        a call that starts with an event"""
+        assert self.observers.count(a) == 1 and self.observers.count(o) == 1 and self.observers.index(a) < self.observers.index(o)
+        self.observers = [x for x in self.observers if x != o]
+        self.add_call(("R", a, o), kind="-")
+
     # ---- connect / login
     def login_steps(self, user, pw, plan):
         """plan: dict of reply codes for the login steps: user, pass, pbsz, prot, type. returns (cmds, replies, reactions)"""
